@@ -26,8 +26,11 @@ def cases():
         txt = open(p).read()
         m = re.search(r'^// target:\s*(\S+)', txt, re.M)
         l = re.search(r'^// labels:\s*(.*)$', txt, re.M)
+        t = re.search(r'^// tier:\s*(\S+)', txt, re.M)
+        b = re.search(r'^// bound:\s*(.*(?:\n// (?!target:|labels:|tier:).*)*)', txt, re.M)
         name = os.path.splitext(os.path.basename(p))[0]
-        res.append({'name': name, 'path': p, 'target': m.group(1) if m else 'src/sync.rs', 'labels': l.group(1).split() if l else [], 'text': txt})
+        res.append({'name': name, 'path': p, 'target': m.group(1) if m else 'src/sync.rs', 'labels': l.group(1).split() if l else [], 'text': txt,
+                    'tier': t.group(1) if t else 'thorough', 'bound': re.sub(r'\n// ', ' ', b.group(1)).strip() if b else ''})
     return res
 
 
@@ -53,7 +56,7 @@ def run_cases(sel, timeout=1500):
     out = {}
     for c in sel:
         t0 = time.time()
-        p = subprocess.run(['cargo', 'test', '--offline', '--lib', 'verif_rp_' + c['name'], '--', '--nocapture', '--test-threads', '1'],
+        p = subprocess.run(['cargo', 'test', '--offline', '--config', 'profile.dev.package."*".opt-level=2', '--lib', 'verif_rp_' + c['name'], '--', '--nocapture', '--test-threads', '1'],
                            cwd=WORK, env=env, capture_output=True, text=True, timeout=timeout)
         txt = p.stdout + '\n' + p.stderr
         ran = re.search(r'test result: (\w+)\. (\d+) passed; (\d+) failed', txt)
